@@ -238,7 +238,7 @@ func inlineNewHelpers(p *Program) (map[*ssa.Function]bool, error) {
 		}
 	}
 	for _, f := range fns {
-		if ssa.NormalizeBranches(f) {
+		if ssa.NormalizeBranches(f, expanded[f]) {
 			p.Normalized++
 			expanded[f] = true
 			if msg := ssa.SanityCheckInlined(f); msg != "" {
